@@ -578,6 +578,122 @@ Definition from_bytes_legacy (data : bytes) : outcome (list rec) :=
 
 End WithUrllib.
 
+(** ** whad/ble/scanning.py: AdvertisingDevicesDB.on_device_found over a sequence of
+    advertisements.  An event is what the method reads from the scapy packet: PDU kind,
+    AdvA, TxAdd, the rssi argument and the re-joined record bytes
+    ([b''.join(bytes(record) for record in pkt.data)], scapy is third-party: the harness
+    feeds the model the bytes scapy produced).  Time is frozen (the harness pins
+    [scanning.time]), so the 0.5 s scan-response timeout never elapses: [scanned] is
+    only set by a scan response. *)
+Inductive pdu := AdvInd | AdvNonconn | ScanRsp | OtherPdu.
+Record event := { ev_pdu : pdu; ev_addr : N; ev_txadd : N; ev_rssi : N; ev_data : bytes }.
+
+(** AdvertisingDevice: the per-address state.  unknown = no entry, waiting = entry with
+    [d_got = false], complete = [d_got = true]. *)
+Record device := { d_addr : N; d_type : N; d_rssi : N; d_adv : list rec; d_rsp : option (list rec);
+                   d_got : bool; d_conn : bool; d_scanned : bool; d_reported : bool }.
+Definition set_rssi (r : N) (d : device) : device :=
+  {| d_addr := d_addr d; d_type := d_type d; d_rssi := r; d_adv := d_adv d; d_rsp := d_rsp d;
+     d_got := d_got d; d_conn := d_conn d; d_scanned := d_scanned d; d_reported := d_reported d |}.
+(** [set_scan_rsp]: only the first scan response is kept *)
+Definition set_scan_rsp (l : list rec) (d : device) : device :=
+  if d_got d then d else
+  {| d_addr := d_addr d; d_type := d_type d; d_rssi := d_rssi d; d_adv := d_adv d; d_rsp := Some l;
+     d_got := true; d_conn := d_conn d; d_scanned := true; d_reported := d_reported d |}.
+Definition mark_reported (d : device) : device :=
+  {| d_addr := d_addr d; d_type := d_type d; d_rssi := d_rssi d; d_adv := d_adv d; d_rsp := d_rsp d;
+     d_got := d_got d; d_conn := d_conn d; d_scanned := d_scanned d; d_reported := true |}.
+
+(** the dict [__db] in insertion order *)
+Definition find_dev (a : N) (db : list device) : option device := find (fun d => d_addr d =? a) db.
+Definition update_dev (a : N) (f : device -> device) (db : list device) : list device :=
+  map (fun d => if d_addr d =? a then f d else d) db.
+
+(** [register_device(device, update)] *)
+Definition register (db : list device) (d : device) (update : bool) : list device * bool :=
+  match find_dev (d_addr d) db with
+  | None => (db ++ [d], true)
+  | Some dev => if d_rssi dev =? d_rssi d then (db, false)
+                else (update_dev (d_addr d) (set_rssi (d_rssi d)) db, update)
+  end.
+
+(** [__apply_scan_rsp_timeout]: scanned and not yet reported devices are reported once *)
+Fixpoint timeouts (db : list device) : list device * list N :=
+  match db with
+  | [] => ([], [])
+  | d :: r => let '(r', ys) := timeouts r in
+              if d_scanned d && negb (d_reported d) then (mark_reported d :: r', d_addr d :: ys)
+              else (d :: r', ys)
+  end.
+Definition memN (a : N) (l : list N) : bool := existsb (N.eqb a) l.
+
+Inductive phase := Unknown | Waiting | Complete.
+Definition phase_of (a : N) (db : list device) : phase :=
+  match find_dev a db with None => Unknown | Some d => if d_got d then Complete else Waiting end.
+
+Section ScanDB.
+Variable urlnorm : text -> url_result.
+Variable filter : option N.     (* filter_addr *)
+Variable updates : bool.
+
+(** [except AdvDataError: pass / except AdvDataFieldListOverflow: pass] around the parse *)
+Definition parse_adv (data : bytes) : outcome (option (list rec)) :=
+  match from_bytes urlnorm data with
+  | Ok l => Ok (Some l)
+  | Raise AdvDataError => Ok None
+  | Raise AdvDataFieldListOverflow => Ok None
+  | Raise e => Raise e
+  end.
+
+Definition filter_is (a : N) : bool := match filter with Some f => f =? a | None => false end.
+Definition filter_none : bool := match filter with Some _ => false | None => true end.
+
+(** the three branches of [on_device_found] before the timeout sweep: new database and
+    the devices appended so far (their addresses) *)
+Definition handle (db : list device) (ev : event) : outcome (list device * list N) :=
+  let a := ev_addr ev in
+  let adv (conn : bool) :=
+    o <- parse_adv (ev_data ev) ;;
+    match o with
+    | Some l =>
+        let d := {| d_addr := a; d_type := ev_txadd ev; d_rssi := ev_rssi ev; d_adv := l; d_rsp := None;
+                    d_got := false; d_conn := conn; d_scanned := false; d_reported := false |} in
+        if filter_is a || filter_none then
+          let '(db', r) := register db d updates in Ok (db', if r && updates then [a] else [])
+        else Ok (db, [])
+    | None => Ok (db, [])
+    end in
+  match ev_pdu ev with
+  | AdvInd => adv true
+  | AdvNonconn => adv false
+  | ScanRsp =>
+      o <- parse_adv (ev_data ev) ;;
+      match o with
+      | Some l =>
+          match find_dev a db with
+          | Some dev => if d_got dev then Ok (db, [])
+                        else Ok (update_dev a (set_scan_rsp l) db, if filter_is a || updates then [a] else [])
+          | None => Ok (db, [])
+          end
+      | None => Ok (db, [])
+      end
+  | OtherPdu => Ok (db, [])
+  end.
+
+Definition on_device_found (db : list device) (ev : event) : outcome (list device * list N) :=
+  r <- handle db ev ;;
+  let '(db2, ys) := timeouts (fst r) in
+  Ok (db2, fold_left (fun acc y => if memN y acc then acc else acc ++ [y]) ys (snd r)).
+
+(** a whole scan: the returned device lists of every call, and the final database *)
+Fixpoint scan (db : list device) (evs : list event) : outcome (list device * list (list N)) :=
+  match evs with
+  | [] => Ok (db, [])
+  | ev :: r => x <- on_device_found db ev ;; y <- scan (fst x) r ;; Ok (fst y, snd x :: snd y)
+  end.
+
+End ScanDB.
+
 (** Serialised size of a list: every record costs 2 + len(value). *)
 Definition total_len (l : list rec) : nat := list_sum (map (fun r => 2 + length (value r))%nat l).
 Definition fits31 (l : list rec) : Prop := (total_len l <= 31)%nat.
@@ -683,6 +799,43 @@ Definition check_build (c : list call * url_table * obs_out (list obs * obs_out 
   out_eqb (fun l lo => list_eqb obs_eqb (map canon l) (fst lo)
                         && out_eqb bytes_eqb (to_bytes l) (snd lo))
           (build tbl ks) o.
+
+(** scan case: (filter, updates, urlparse table, events, observed: per call the returned
+    addresses or the escaping class; then find_device of each listed address at the end:
+    (address type, rssi, adv records, scan-response records, got_scan_rsp, connectable,
+    scanned, reported)) *)
+Definition dev_obs := (N * N * list obs * option (list obs) * bool * bool * bool * bool)%type.
+Definition canon_dev (d : device) : dev_obs :=
+  (d_type d, d_rssi d, map canon (d_adv d), option_map (map canon) (d_rsp d),
+   d_got d, d_conn d, d_scanned d, d_reported d).
+Definition dev_obs_eqb (a b : dev_obs) : bool :=
+  let '(t1, r1, a1, s1, g1, c1, x1, p1) := a in let '(t2, r2, a2, s2, g2, c2, x2, p2) := b in
+  (t1 =? t2) && (r1 =? r2) && list_eqb obs_eqb a1 a2
+  && match s1, s2 with Some u, Some v => list_eqb obs_eqb u v | None, None => true | _, _ => false end
+  && Bool.eqb g1 g2 && Bool.eqb c1 c2 && Bool.eqb x1 x2 && Bool.eqb p1 p2.
+(** run until the first call that raises, as the harness does *)
+Fixpoint scan_obs (urlnorm : text -> url_result) (filter : option N) (updates : bool)
+         (db : list device) (evs : list event) : list device * list (obs_out (list N)) :=
+  match evs with
+  | [] => (db, [])
+  | ev :: r =>
+      match on_device_found urlnorm filter updates db ev with
+      | Ok x => let '(db', o) := scan_obs urlnorm filter updates (fst x) r in (db', ObsOk (snd x) :: o)
+      | Raise e => (db, [ObsRaise e])
+      end
+  end.
+Definition check_scan (c : option N * bool * url_table * list event
+                           * list (obs_out (list N)) * list (N * option dev_obs)) : bool :=
+  let '(filter, updates, tbl, evs, outs, finals) := c in
+  let '(db, o) := scan_obs (lookup_url tbl) filter updates [] evs in
+  list_eqb (fun m x => match m, x with
+                       | ObsOk a, ObsOk b => bytes_eqb a b
+                       | ObsRaise e, ObsRaise e' => exn_eqb e e'
+                       | _, _ => false end) o outs
+  && forallb (fun q => match find_dev (fst q) db, snd q with
+                       | Some d, Some x => dev_obs_eqb (canon_dev d) x
+                       | None, None => true
+                       | _, _ => false end) finals.
 
 (** UTF-8 library cases: (bytes, CPython's decode result) and (code point, CPython's encode result) *)
 Definition opt_eqb (a b : option (list N)) : bool :=
